@@ -48,6 +48,29 @@ static BN_CTX *bnctx;
 
 #define CMP(name)   do { vf_stat("cmp_total", 1); vf_stat("cmp_" name, 1); } while (0)
 
+/* violation report: at most 3 per key and process, so that a frequent finding
+   cannot use up the 25 lines vf_viol prints and hide another key */
+static void
+rviol(const char *key, const char *what, const char *fmt, ...)
+{
+	static struct { char key[64]; int n; } seen[64];
+	static int nseen;
+	static char buf[6000];
+	va_list ap;
+	int i;
+	for (i = 0; i < nseen; i ++) if (strcmp(seen[i].key, key) == 0) break;
+	if (i == nseen) {
+		if (nseen < 64) { snprintf(seen[i].key, sizeof seen[i].key, "%s", key); seen[i].n = 0; nseen ++; }
+		else i = 63;
+	}
+	vf_stat("violations_seen", 1);
+	if (++ seen[i].n > 3) return;
+	va_start(ap, fmt);
+	vsnprintf(buf, sizeof buf, fmt, ap);
+	va_end(ap);
+	vf_viol(key, what, "%s", buf);
+}
+
 static void *
 xmalloc(size_t len)
 {
@@ -537,26 +560,26 @@ sec_raw(const rkey *k, const impl_t *m)
 			r1 = m->pub(b1, nlen, &pv.pk);
 			CMP("raw_pub");
 			if (r1 != 1 || memcmp(b1, rp, nlen) != 0)
-				vf_viol("C10:raw:public-vs-bignum", "x^e mod n differs from BN_mod_exp (or returned 0)",
+				rviol("C10:raw:public-vs-bignum", "x^e mod n differs from BN_mod_exp (or returned 0)",
 					"%s pk=%s r=%u x=%s", g_ctx, pv.desc, r1, vf_hexs(x, nlen));
 			memcpy(b2, rp, nlen);
 			r2 = m->priv(b2, &sv.sk);
 			CMP("raw_inverse");
 			if (r2 != 1 || memcmp(b2, x, nlen) != 0)
-				vf_viol("C10:raw:private-of-public", "private(public(x)) != x",
+				rviol("C10:raw:private-of-public", "private(public(x)) != x",
 					"%s sk=%s r=%u x=%s", g_ctx, sv.desc, r2, vf_hexs(x, nlen));
 		} else {
 			memcpy(b1, x, nlen);
 			r1 = m->priv(b1, &sv.sk);
 			CMP("raw_priv");
 			if (r1 != 1 || memcmp(b1, rs, nlen) != 0)
-				vf_viol("C10:raw:private-vs-bignum", "x^d mod n differs from BN_mod_exp (or returned 0)",
+				rviol("C10:raw:private-vs-bignum", "x^d mod n differs from BN_mod_exp (or returned 0)",
 					"%s sk=%s r=%u x=%s", g_ctx, sv.desc, r1, vf_hexs(x, nlen));
 			memcpy(b2, rs, nlen);
 			r2 = m->pub(b2, nlen, &pv.pk);
 			CMP("raw_inverse");
 			if (r2 != 1 || memcmp(b2, x, nlen) != 0)
-				vf_viol("C10:raw:public-of-private", "public(private(x)) != x",
+				rviol("C10:raw:public-of-private", "public(private(x)) != x",
 					"%s pk=%s r=%u x=%s", g_ctx, pv.desc, r2, vf_hexs(x, nlen));
 		}
 		vf_distinct("config", "raw/%s/%s/v%d", m->name, k->name, (int)(j & 3));
@@ -587,7 +610,7 @@ sec_raw(const rkey *k, const impl_t *m)
 			r = m->pub(b, nlen, &pv.pk);
 			CMP("raw_pub_range");
 			if (r != 0)
-				vf_viol("C10:strict:public-x-not-below-n", "public op accepted x >= n",
+				rviol("C10:strict:public-x-not-below-n", "public op accepted x >= n",
 					"%s variant=%d", g_ctx, v);
 			free(b);
 		}
@@ -604,7 +627,7 @@ sec_raw(const rkey *k, const impl_t *m)
 			r = pk == &pz.pk ? m->pub(b, xl, pk) : m->pub(b, xl, pk);
 			CMP("raw_pub_len");
 			if (r != 0 || memcmp(b, c, xl) != 0)
-				vf_viol("C10:strict:public-wrong-length", "public op with xlen != modulus length: nonzero result or x modified",
+				rviol("C10:strict:public-wrong-length", "public op with xlen != modulus length: nonzero result or x modified",
 					"%s variant=%d r=%u", g_ctx, v, r);
 			free(b); free(c);
 		}
@@ -619,7 +642,7 @@ sec_raw(const rkey *k, const impl_t *m)
 			r = m->pub(b, nlen, &pe.pk);
 			CMP("raw_pub_even");
 			if (r != 0)
-				vf_viol("C10:strict:public-even-modulus", "public op returned 1 with an even modulus", "%s", g_ctx);
+				rviol("C10:strict:public-even-modulus", "public op returned 1 with an even modulus", "%s", g_ctx);
 			free(b); free_pk(&pe);
 		}
 		/* zero modulus (all-zero bytes) */
@@ -632,7 +655,7 @@ sec_raw(const rkey *k, const impl_t *m)
 			r = m->pub(b, nlen, &pe.pk);
 			CMP("raw_pub_zero_n");
 			if (r != 0)
-				vf_viol("C10:strict:public-zero-modulus", "public op returned 1 with a zero modulus", "%s", g_ctx);
+				rviol("C10:strict:public-zero-modulus", "public op returned 1 with a zero modulus", "%s", g_ctx);
 			free(b); free_pk(&pe);
 		}
 		/* oversized modulus (4097..4104 bits): executed, sanitizers armed; result is
@@ -685,7 +708,7 @@ sec_raw(const rkey *k, const impl_t *m)
 			r = m->priv(b, &sv.sk);
 			CMP("raw_priv_even");
 			if (r != 0)
-				vf_viol("C10:strict:private-even-factor", "private op returned 1 with an even factor",
+				rviol("C10:strict:private-even-factor", "private op returned 1 with an even factor",
 					"%s which=%s", g_ctx, v ? "q" : "p");
 			free(b); free_sk(&sv);
 			BN_free(pp); BN_free(qq); BN_free(nn); BN_free(xx);
@@ -782,10 +805,10 @@ p1_check_vrfy(const rkey *k, const impl_t *m, const br_rsa_public_key *pk,
 	memset(ho, 0xA5, h->hlen);
 	r = m->vrfy(s, siglen, h->oid, h->hlen, pk, ho);
 	if (memcmp(s, sig, siglen) != 0)
-		vf_viol("C10:p1:vrfy-modified-signature", "pkcs1_vrfy modified its input signature", "%s hash=%s", g_ctx, h->name);
+		rviol("C10:p1:vrfy-modified-signature", "pkcs1_vrfy modified its input signature", "%s hash=%s", g_ctx, h->name);
 	if ((r != 0) != (expect != 0) || (r != 0 && r != 1)
 		|| (expect && memcmp(ho, exp_hash, h->hlen) != 0))
-		vf_viol(key, what, "%s hash=%s expect=%d got=%u hash_out=%s sig=%s", g_ctx, h->name, expect, r,
+		rviol(key, what, "%s hash=%s expect=%d got=%u hash_out=%s sig=%s", g_ctx, h->name, expect, r,
 			vf_hexs(ho, h->hlen), vf_hexs(sig, siglen));
 	(void)k;
 	free(s); free(ho);
@@ -832,7 +855,7 @@ sec_p1(const rkey *k, const impl_t *m)
 		if (!fits) {
 			CMP("p1_too_small");
 			if (r != 0)
-				vf_viol("C10:p1:sign-modulus-too-small", "pkcs1_sign succeeded although < 8 padding bytes fit",
+				rviol("C10:p1:sign-modulus-too-small", "pkcs1_sign succeeded although < 8 padding bytes fit",
 					"%s hash=%s", g_ctx, h->name);
 			free_sk(&sv);
 			continue;
@@ -840,12 +863,12 @@ sec_p1(const rkey *k, const impl_t *m)
 		if (RSA_sign(h->nid, hv, (unsigned)h->hlen, ref, &sl, k->rsa) != 1 || sl != nlen) HARNESS_FAIL("RSA_sign");
 		CMP("p1_sign_identical");
 		if (r != 1 || memcmp(sig, ref, nlen) != 0)
-			vf_viol("C10:p1:sign-vs-openssl", "pkcs1_sign output differs from OpenSSL RSA_sign (deterministic scheme) or returned 0",
+			rviol("C10:p1:sign-vs-openssl", "pkcs1_sign output differs from OpenSSL RSA_sign (deterministic scheme) or returned 0",
 				"%s hash=%s sk=%s r=%u hv=%s got=%s", g_ctx, h->name, sv.desc, r, vf_hexs(hv, h->hlen), vf_hexs(sig, nlen));
 		CMP("p1_openssl_verifies");
 		if (r == 1 && RSA_verify(h->nid, hv, (unsigned)h->hlen, sig, (unsigned)nlen, k->rsa) != 1) {
 			ERR_clear_error();
-			vf_viol("C10:p1:openssl-rejects", "OpenSSL RSA_verify rejects a signature made here",
+			rviol("C10:p1:openssl-rejects", "OpenSSL RSA_verify rejects a signature made here",
 				"%s hash=%s hv=%s", g_ctx, h->name, vf_hexs(hv, h->hlen));
 		}
 		free_sk(&sv);
@@ -946,7 +969,7 @@ sec_p1(const rkey *k, const impl_t *m)
 		r = m->vrfy(b, bl, h->oid, h->hlen, &pe, ho);
 		CMP("p1_oversized_modulus");
 		if (r != 0)
-			vf_viol("C10:strict:p1-oversized-modulus", "pkcs1_vrfy returned 1 with a 4097-bit modulus", "%s", g_ctx);
+			rviol("C10:strict:p1-oversized-modulus", "pkcs1_vrfy returned 1 with a 4097-bit modulus", "%s", g_ctx);
 		free(b); free(ho); free(pe.n); free(pe.e);
 	}
 	free_pk(&pv); free_pk(&pz);
@@ -1002,9 +1025,9 @@ pss_check_vrfy(const impl_t *m, const br_rsa_public_key *pk, const unsigned char
 	unsigned char *s = vf_dup(sig, siglen), *hh = vf_dup(mhash, hf->hlen);
 	uint32_t r = m->pvrfy(s, siglen, hf->bc, mgf->bc, hh, slen, pk);
 	if (memcmp(s, sig, siglen) != 0)
-		vf_viol("C10:pss:vrfy-modified-signature", "pss_vrfy modified its input signature", "%s", g_ctx);
+		rviol("C10:pss:vrfy-modified-signature", "pss_vrfy modified its input signature", "%s", g_ctx);
 	if ((r != 0) != (expect != 0) || (r != 0 && r != 1))
-		vf_viol(key, what, "%s hf=%s mgf=%s slen=%u expect=%d got=%u mhash=%s sig=%s", g_ctx, hf->name, mgf->name,
+		rviol(key, what, "%s hf=%s mgf=%s slen=%u expect=%d got=%u mhash=%s sig=%s", g_ctx, hf->name, mgf->name,
 			(unsigned)slen, expect, r, vf_hexs(mhash, hf->hlen), vf_hexs(sig, siglen));
 	free(s); free(hh);
 }
@@ -1044,7 +1067,7 @@ sec_pss(const rkey *k, const impl_t *m)
 			r = m->psign(&dc.vtable, hf->bc, mgf->bc, mh, 0, &sv.sk, so);
 			CMP("pss_too_small");
 			if (r != 0)
-				vf_viol("C10:pss:sign-modulus-too-small", "pss_sign succeeded although hash+salt+2 > emLen",
+				rviol("C10:pss:sign-modulus-too-small", "pss_sign succeeded although hash+salt+2 > emLen",
 					"%s hf=%s slen=0", g_ctx, hf->name);
 			vf_bytes(&R, so, nlen); so[0] = 0;
 			CMP("pss_too_small");
@@ -1066,7 +1089,7 @@ sec_pss(const rkey *k, const impl_t *m)
 		r = m->psign(&dc.vtable, hf->bc, mgf->bc, mh, (size_t)maxs + 1, &sv.sk, so);
 		CMP("pss_too_small");
 		if (r != 0)
-			vf_viol("C10:pss:sign-modulus-too-small", "pss_sign succeeded although hash+salt+2 > emLen",
+			rviol("C10:pss:sign-modulus-too-small", "pss_sign succeeded although hash+salt+2 > emLen",
 				"%s hf=%s slen=%ld", g_ctx, hf->name, maxs + 1);
 
 		/* made here -> verified by OpenSSL and here */
@@ -1081,7 +1104,7 @@ sec_pss(const rkey *k, const impl_t *m)
 			EVP_PKEY_CTX_free(c);
 			if (v != 1) {
 				ERR_clear_error();
-				vf_viol("C10:pss:openssl-rejects", "OpenSSL rejects a PSS signature made here (or pss_sign returned 0)",
+				rviol("C10:pss:openssl-rejects", "OpenSSL rejects a PSS signature made here (or pss_sign returned 0)",
 					"%s hf=%s mgf=%s slen=%u sk=%s r=%u v=%d mhash=%s sig=%s", g_ctx, hf->name, mgf->name, (unsigned)slen,
 					sv.desc, r, v, vf_hexs(mh, hf->hlen), vf_hexs(sig, nlen));
 			}
@@ -1189,7 +1212,7 @@ sec_pss(const rkey *k, const impl_t *m)
 		r = m->pvrfy(b, bl, h->bc, h->bc, mh, 32, &pe);
 		CMP("pss_oversized_modulus");
 		if (r != 0)
-			vf_viol("C10:strict:pss-oversized-modulus", "pss_vrfy returned 1 with a 4097-bit modulus", "%s", g_ctx);
+			rviol("C10:strict:pss-oversized-modulus", "pss_vrfy returned 1 with a 4097-bit modulus", "%s", g_ctx);
 		free(b); free(pe.n); free(pe.e);
 	}
 	free_pk(&pv); free_pk(&pz);
@@ -1282,7 +1305,7 @@ oaep_check_dec(const impl_t *m, const br_rsa_private_key *sk, const unsigned cha
 	if ((r != 0) != (expect != 0) || (r != 0 && r != 1)
 		|| (expect && (*lp != emlen || memcmp(d, emsg, emlen) != 0))
 		|| (!expect && *lp != clen))
-		vf_viol(key, what, "%s hash=%s llen=%u expect=%d got=%u len=%u/%u label=%s ct=%s", g_ctx, h->name, (unsigned)llen,
+		rviol(key, what, "%s hash=%s llen=%u expect=%d got=%u len=%u/%u label=%s ct=%s", g_ctx, h->name, (unsigned)llen,
 			expect, r, (unsigned)*lp, (unsigned)emlen, vf_hexs(label, llen), vf_hexs(c, clen));
 	free(d); free(lb); free(lp);
 }
@@ -1324,7 +1347,7 @@ sec_oaep(const rkey *k, const impl_t *m)
 			r = m->oenc(&dc.vtable, h->bc, llen ? label : NULL, llen, &pv.pk, dst, nlen, msg, 0);
 			CMP("oaep_too_small");
 			if (r != 0)
-				vf_viol("C10:oaep:encrypt-modulus-too-small", "oaep_encrypt succeeded although k < 2*hLen + 2",
+				rviol("C10:oaep:encrypt-modulus-too-small", "oaep_encrypt succeeded although k < 2*hLen + 2",
 					"%s hash=%s", g_ctx, h->name);
 			free(dst);
 			mk_sk(&sv, k, 0, NULL);
@@ -1353,7 +1376,7 @@ sec_oaep(const rkey *k, const impl_t *m)
 			r = m->oenc(&dc.vtable, h->bc, lb, llen, (it & 4) ? &pv.pk : &pv.pk, dst, dmax, src, mlen);
 			CMP("oaep_encrypt_openssl_decrypts");
 			if (r != nlen) {
-				vf_viol("C10:oaep:encrypt-failed", "oaep_encrypt did not return the modulus length",
+				rviol("C10:oaep:encrypt-failed", "oaep_encrypt did not return the modulus length",
 					"%s hash=%s llen=%u mlen=%u r=%u", g_ctx, h->name, (unsigned)llen, (unsigned)mlen, (unsigned)r);
 			} else {
 				EVP_PKEY_CTX *c = oaep_ctx(k, 0, h, label, llen);
@@ -1362,7 +1385,7 @@ sec_oaep(const rkey *k, const impl_t *m)
 				EVP_PKEY_CTX_free(c);
 				if (v != 1 || ol != mlen || memcmp(msg2, msg, mlen) != 0) {
 					ERR_clear_error();
-					vf_viol("C10:oaep:openssl-rejects", "OpenSSL cannot decrypt (or decrypts differently) an OAEP ciphertext made here",
+					rviol("C10:oaep:openssl-rejects", "OpenSSL cannot decrypt (or decrypts differently) an OAEP ciphertext made here",
 						"%s hash=%s llen=%u mlen=%u v=%d label=%s ct=%s", g_ctx, h->name, (unsigned)llen, (unsigned)mlen, v,
 						vf_hexs(label, llen), vf_hexs(dst, nlen));
 				}
@@ -1375,14 +1398,14 @@ sec_oaep(const rkey *k, const impl_t *m)
 			r = m->oenc(&dc.vtable, h->bc, label, llen, &pv.pk, dst, nlen, src, (size_t)maxm + 1);
 			CMP("oaep_encrypt_limits");
 			if (r != 0)
-				vf_viol("C10:oaep:encrypt-message-too-long", "oaep_encrypt accepted a message longer than k-2hLen-2",
+				rviol("C10:oaep:encrypt-message-too-long", "oaep_encrypt accepted a message longer than k-2hLen-2",
 					"%s hash=%s", g_ctx, h->name);
 			free(dst);
 			dst = xmalloc(nlen - 1);
 			r = m->oenc(&dc.vtable, h->bc, label, llen, &pv.pk, dst, nlen - 1, src, mlen);
 			CMP("oaep_encrypt_limits");
 			if (r != 0)
-				vf_viol("C10:oaep:encrypt-destination-too-small", "oaep_encrypt succeeded with dst_max_len < modulus length",
+				rviol("C10:oaep:encrypt-destination-too-small", "oaep_encrypt succeeded with dst_max_len < modulus length",
 					"%s hash=%s", g_ctx, h->name);
 			free(dst); free(src);
 		}
@@ -1394,7 +1417,7 @@ sec_oaep(const rkey *k, const impl_t *m)
 			r = m->oenc(&dc.vtable, h->bc, label, llen, &pz.pk, dst, dmax, src, mlen);
 			CMP("oaep_encrypt_leading_zero_n");
 			if (r != nlen) {
-				vf_viol("C10:oaep:encrypt-leading-zero-n", "oaep_encrypt with leading zero bytes in n does not return the mathematical modulus length",
+				rviol("C10:oaep:encrypt-leading-zero-n", "oaep_encrypt with leading zero bytes in n does not return the mathematical modulus length",
 					"%s hash=%s pk=%s mlen=%u r=%u", g_ctx, h->name, pz.desc, (unsigned)mlen, (unsigned)r);
 			} else {
 				EVP_PKEY_CTX *c = oaep_ctx(k, 0, h, label, llen);
@@ -1403,7 +1426,7 @@ sec_oaep(const rkey *k, const impl_t *m)
 				EVP_PKEY_CTX_free(c);
 				if (v != 1 || ol != mlen || memcmp(msg2, msg, mlen) != 0) {
 					ERR_clear_error();
-					vf_viol("C10:oaep:encrypt-leading-zero-n", "oaep_encrypt with leading zero bytes in n: OpenSSL cannot decrypt",
+					rviol("C10:oaep:encrypt-leading-zero-n", "oaep_encrypt with leading zero bytes in n: OpenSSL cannot decrypt",
 						"%s hash=%s pk=%s", g_ctx, h->name, pz.desc);
 				}
 			}
@@ -1532,7 +1555,7 @@ sec_oaep(const rkey *k, const impl_t *m)
 		r = m->oenc(&dc.vtable, HASHES[1].bc, NULL, 0, &pe, b, bl, msg, 10);
 		CMP("oaep_oversized_modulus");
 		if (r != 0)
-			vf_viol("C10:strict:oaep-oversized-modulus", "oaep_encrypt succeeded with a 4097-bit modulus", "%s", g_ctx);
+			rviol("C10:strict:oaep-oversized-modulus", "oaep_encrypt succeeded with a 4097-bit modulus", "%s", g_ctx);
 		free(b); free(pe.n); free(pe.e);
 	}
 	free_pk(&pv); free_pk(&pz);
@@ -1559,7 +1582,7 @@ tls_check(const impl_t *m, const br_rsa_private_key *sk, const unsigned char *c,
 	unsigned char *d = vf_dup(c, clen);
 	uint32_t r = br_rsa_ssl_decrypt(m->priv, sk, d, clen);
 	if ((r != 0) != (expect != 0) || (r != 0 && r != 1) || (expect && memcmp(d, pms, 48) != 0))
-		vf_viol(key, what, "%s expect=%d got=%u ct=%s", g_ctx, expect, r, vf_hexs(c, clen));
+		rviol(key, what, "%s expect=%d got=%u ct=%s", g_ctx, expect, r, vf_hexs(c, clen));
 	free(d);
 }
 
@@ -1597,7 +1620,7 @@ sec_tls(const rkey *k, const impl_t *m)
 				r = br_rsa_ssl_decrypt(m->priv, &sv.sk, b, l);
 				CMP("tls_strict_len");
 				if (r != 0 || memcmp(b, b0, l) != 0)
-					vf_viol("C10:strict:tls-wrong-length", "br_rsa_ssl_decrypt with len != modulus length: nonzero result or buffer modified",
+					rviol("C10:strict:tls-wrong-length", "br_rsa_ssl_decrypt with len != modulus length: nonzero result or buffer modified",
 						"%s len=%u r=%u", g_ctx, (unsigned)l, r);
 				free(b); free(b0);
 			}
@@ -1677,7 +1700,7 @@ check_compute(const rkey *k, const impl_t *m, const skv *sv, int from_keygen)
 		BN_bn2binpad(k->n, ref, (int)nlen);
 		CMP("compute_modulus");
 		if (l0 != nlen || l1 != nlen || memcmp(nb, ref, nlen) != 0)
-			vf_viol("C10:compute:modulus", "compute_modulus differs from p*q (BIGNUM)", "%s sk=%s l0=%u l1=%u got=%s",
+			rviol("C10:compute:modulus", "compute_modulus differs from p*q (BIGNUM)", "%s sk=%s l0=%u l1=%u got=%s",
 				g_ctx, sv->desc, (unsigned)l0, (unsigned)l1, vf_hexs(nb, nlen));
 		free(nb); free(ref);
 	}
@@ -1687,12 +1710,12 @@ check_compute(const rkey *k, const impl_t *m, const skv *sv, int from_keygen)
 			/* documented: 0 if p or q is not 3 mod 4, or e does not fit 32 bits */
 			CMP("compute_pubexp_documented_zero");
 			if (e != 0)
-				vf_viol("C10:compute:pubexp-not-zero", "compute_pubexp non-zero although p/q != 3 mod 4 or e > 32 bits",
+				rviol("C10:compute:pubexp-not-zero", "compute_pubexp non-zero although p/q != 3 mod 4 or e > 32 bits",
 					"%s sk=%s got=%u", g_ctx, sv->desc, e);
 		} else {
 			CMP("compute_pubexp");
 			if (e != k->e32)
-				vf_viol(from_keygen ? "C10:keygen:pubexp" : "C10:compute:pubexp", "compute_pubexp does not return the public exponent",
+				rviol(from_keygen ? "C10:keygen:pubexp" : "C10:compute:pubexp", "compute_pubexp does not return the public exponent",
 					"%s sk=%s got=%u want=%u", g_ctx, sv->desc, e, k->e32);
 		}
 	}
@@ -1703,7 +1726,7 @@ check_compute(const rkey *k, const impl_t *m, const skv *sv, int from_keygen)
 		if (k->m3) {
 			CMP("compute_privexp_succeeds");
 			if (l0 == 0 || l1 == 0)
-				vf_viol(from_keygen ? "C10:keygen:privexp" : "C10:compute:privexp-fails", "compute_privexp failed on a valid key with p = q = 3 mod 4",
+				rviol(from_keygen ? "C10:keygen:privexp" : "C10:compute:privexp-fails", "compute_privexp failed on a valid key with p = q = 3 mod 4",
 					"%s sk=%s l0=%u l1=%u", g_ctx, sv->desc, (unsigned)l0, (unsigned)l1);
 		} else {
 			vf_stat(l1 ? "unjudged_privexp_not_m3_ok" : "unjudged_privexp_not_m3_zero", 1);
@@ -1718,7 +1741,7 @@ check_compute(const rkey *k, const impl_t *m, const skv *sv, int from_keygen)
 			ok &= (BN_cmp(d, k->n) < 0) && (l0 == l1);
 			CMP("compute_privexp");
 			if (!ok)
-				vf_viol(from_keygen ? "C10:keygen:privexp" : "C10:compute:privexp", "compute_privexp result is not an inverse of e modulo p-1 and q-1",
+				rviol(from_keygen ? "C10:keygen:privexp" : "C10:compute:privexp", "compute_privexp result is not an inverse of e modulo p-1 and q-1",
 					"%s sk=%s l0=%u l1=%u d=%s", g_ctx, sv->desc, (unsigned)l0, (unsigned)l1, vf_hexs(db, l1));
 			BN_free(d); BN_free(p1); BN_free(q1); BN_free(t);
 		}
@@ -1727,10 +1750,10 @@ check_compute(const rkey *k, const impl_t *m, const skv *sv, int from_keygen)
 			size_t r;
 			r = m->cpriv(db, &sv->sk, 1);
 			CMP("compute_privexp_bad_e");
-			if (r != 0) vf_viol("C10:compute:privexp-bad-e", "compute_privexp accepted e = 1", "%s", g_ctx);
+			if (r != 0) rviol("C10:compute:privexp-bad-e", "compute_privexp accepted e = 1", "%s", g_ctx);
 			r = m->cpriv(db, &sv->sk, 65536);
 			CMP("compute_privexp_bad_e");
-			if (r != 0) vf_viol("C10:compute:privexp-bad-e", "compute_privexp accepted an even e", "%s", g_ctx);
+			if (r != 0) rviol("C10:compute:privexp-bad-e", "compute_privexp accepted an even e", "%s", g_ctx);
 		}
 		free(db);
 	}
@@ -1783,7 +1806,7 @@ sec_keygen(const impl_t *m, unsigned size, uint32_t pubexp, int round)
 	vf_stat("keygen_keys", 1);
 	vf_distinct("config", "keygen/%s/%u/e%u", m->name, size, pubexp);
 	if (r != 1) {
-		vf_viol("C10:keygen:failed", "keygen returned 0 for valid parameters", "%s", g_ctx);
+		rviol("C10:keygen:failed", "keygen returned 0 for valid parameters", "%s", g_ctx);
 		free(kp); free(kb);
 		return;
 	}
@@ -1798,32 +1821,32 @@ sec_keygen(const impl_t *m, unsigned size, uint32_t pubexp, int round)
 
 	CMP("keygen_size");
 	if (BN_num_bits(k.n) != (int)size || sk.n_bitlen != size)
-		vf_viol("C10:keygen:modulus-size", "generated modulus does not have exactly the requested size",
+		rviol("C10:keygen:modulus-size", "generated modulus does not have exactly the requested size",
 			"%s bits=%d n_bitlen=%u n=%s", g_ctx, BN_num_bits(k.n), sk.n_bitlen, vf_hexs(pk.n, pk.nlen));
 	CMP("keygen_n_is_pq");
 	BN_mul(t, k.p, k.q, bnctx);
 	if (BN_cmp(t, k.n) != 0)
-		vf_viol("C10:keygen:n-not-pq", "public modulus != p*q", "%s p=%s q=%s", g_ctx, vf_hexs(sk.p, sk.plen), vf_hexs(sk.q, sk.qlen));
+		rviol("C10:keygen:n-not-pq", "public modulus != p*q", "%s p=%s q=%s", g_ctx, vf_hexs(sk.p, sk.plen), vf_hexs(sk.q, sk.qlen));
 	CMP("keygen_primes");
 	if (BN_check_prime(k.p, bnctx, NULL) != 1 || BN_check_prime(k.q, bnctx, NULL) != 1 || BN_cmp(k.p, k.q) == 0)
-		vf_viol("C10:keygen:not-prime", "p or q is not prime (BN_check_prime) or p = q", "%s p=%s q=%s", g_ctx, vf_hexs(sk.p, sk.plen), vf_hexs(sk.q, sk.qlen));
+		rviol("C10:keygen:not-prime", "p or q is not prime (BN_check_prime) or p = q", "%s p=%s q=%s", g_ctx, vf_hexs(sk.p, sk.plen), vf_hexs(sk.q, sk.qlen));
 	CMP("keygen_pubexp");
 	if (!BN_is_word(k.e, ee))
-		vf_viol("C10:keygen:public-exponent", "public key does not carry the requested exponent", "%s e=%s", g_ctx, vf_hexs(pk.e, pk.elen));
+		rviol("C10:keygen:public-exponent", "public key does not carry the requested exponent", "%s e=%s", g_ctx, vf_hexs(pk.e, pk.elen));
 	BN_set_word(t, ee);
 	BN_free(k.e); k.e = BN_dup(t);
 	CMP("keygen_dp");
 	BN_mod_mul(t, k.dp, k.e, p1, bnctx);
 	if (!BN_is_one(t) || BN_cmp(k.dp, p1) >= 0)
-		vf_viol("C10:keygen:dp", "dp is not the inverse of e modulo p-1 (reduced)", "%s p=%s dp=%s", g_ctx, vf_hexs(sk.p, sk.plen), vf_hexs(sk.dp, sk.dplen));
+		rviol("C10:keygen:dp", "dp is not the inverse of e modulo p-1 (reduced)", "%s p=%s dp=%s", g_ctx, vf_hexs(sk.p, sk.plen), vf_hexs(sk.dp, sk.dplen));
 	CMP("keygen_dq");
 	BN_mod_mul(t, k.dq, k.e, q1, bnctx);
 	if (!BN_is_one(t) || BN_cmp(k.dq, q1) >= 0)
-		vf_viol("C10:keygen:dq", "dq is not the inverse of e modulo q-1 (reduced)", "%s q=%s dq=%s", g_ctx, vf_hexs(sk.q, sk.qlen), vf_hexs(sk.dq, sk.dqlen));
+		rviol("C10:keygen:dq", "dq is not the inverse of e modulo q-1 (reduced)", "%s q=%s dq=%s", g_ctx, vf_hexs(sk.q, sk.qlen), vf_hexs(sk.dq, sk.dqlen));
 	CMP("keygen_iq");
 	BN_mod_mul(t, k.iq, k.q, k.p, bnctx);
 	if (!BN_is_one(t) || BN_cmp(k.iq, k.p) >= 0)
-		vf_viol("C10:keygen:iq", "iq is not the inverse of q modulo p (reduced)", "%s iq=%s", g_ctx, vf_hexs(sk.iq, sk.iqlen));
+		rviol("C10:keygen:iq", "iq is not the inverse of q modulo p (reduced)", "%s iq=%s", g_ctx, vf_hexs(sk.iq, sk.iqlen));
 	vf_stat(BN_cmp(k.p, k.q) > 0 ? "keygen_p_gt_q" : "keygen_p_lt_q", 1);
 	vf_sample("{\"sec\":\"keygen\",\"impl\":\"%s\",\"size\":%u,\"e\":%u,\"n\":\"%s\"}", m->name, size, ee, vf_hexs(pk.n, pk.nlen > 32 ? 32 : pk.nlen));
 
@@ -1868,7 +1891,7 @@ sec_keygen(const impl_t *m, unsigned size, uint32_t pubexp, int round)
 			r = a->sign(h->oid, hv, 32, &sk, sig);
 			CMP("keygen_sign");
 			if (r != 1 || memcmp(sig, ref, k.nlen) != 0)
-				vf_viol("C10:keygen:sign-roundtrip", "signature with a generated key differs from OpenSSL's with the same key",
+				rviol("C10:keygen:sign-roundtrip", "signature with a generated key differs from OpenSSL's with the same key",
 					"%s signer=%s r=%u", g_ctx, a->name, r);
 			if (!have0) { memcpy(sig0, sig, k.nlen); have0 = 1; }
 			free(sig);
@@ -1879,7 +1902,7 @@ sec_keygen(const impl_t *m, unsigned size, uint32_t pubexp, int round)
 				r = IMPLS[mj].vrfy(ref, k.nlen, h->oid, 32, &pk, ho);
 				CMP("keygen_vrfy");
 				if (r != 1 || memcmp(ho, hv, 32) != 0)
-					vf_viol("C10:keygen:sign-roundtrip", "verification with a generated public key fails",
+					rviol("C10:keygen:sign-roundtrip", "verification with a generated public key fails",
 						"%s verifier=%s r=%u", g_ctx, IMPLS[mj].name, r);
 				if (mi > 0) break;   /* all verifiers once, then one per signer */
 			}
@@ -1888,7 +1911,7 @@ sec_keygen(const impl_t *m, unsigned size, uint32_t pubexp, int round)
 		/* OAEP round trip with the generated key through the generating engine's siblings */
 		free(sig0); free(ref);
 	} else {
-		vf_viol("C10:keygen:e-not-invertible", "e is not invertible modulo (p-1)(q-1) or factors are composite", "%s", g_ctx);
+		rviol("C10:keygen:e-not-invertible", "e is not invertible modulo (p-1)(q-1) or factors are composite", "%s", g_ctx);
 		key_finish(&k);
 	}
 
@@ -1903,7 +1926,7 @@ sec_keygen(const impl_t *m, unsigned size, uint32_t pubexp, int round)
 			|| sk2.dplen != sk.dplen || memcmp(sk2.dp, sk.dp, sk.dplen) != 0
 			|| sk2.dqlen != sk.dqlen || memcmp(sk2.dq, sk.dq, sk.dqlen) != 0
 			|| sk2.iqlen != sk.iqlen || memcmp(sk2.iq, sk.iq, sk.iqlen) != 0)
-			vf_viol("C10:keygen:without-public", "keygen with pk = NULL gives another private key than with pk from the same PRNG state", "%s", g_ctx);
+			rviol("C10:keygen:without-public", "keygen with pk = NULL gives another private key than with pk from the same PRNG state", "%s", g_ctx);
 		free(kp2);
 	}
 	/* invalid parameters: documented to return 0 */
@@ -1919,7 +1942,7 @@ sec_keygen(const impl_t *m, unsigned size, uint32_t pubexp, int round)
 			r = m->kg(&dc2.vtable, &sk2, kp2, &pk2, kb2, bad[u].sz, bad[u].e);
 			CMP("keygen_rejects_invalid");
 			if (r != 0)
-				vf_viol("C10:keygen:accepts-invalid", "keygen returned 1 for an unsupported size or an invalid exponent",
+				rviol("C10:keygen:accepts-invalid", "keygen returned 1 for an unsupported size or an invalid exponent",
 					"%s size=%u e=%u", g_ctx, bad[u].sz, bad[u].e);
 		}
 		free(kp2); free(kb2);
